@@ -140,6 +140,20 @@ impl Prop for C05 {
         out.push(Case { id: format!("{};n={}", cell, i), cell, input: json!({"stmts": stmts.iter().map(sj).collect::<Vec<_>>()}) });
       }
     }
+    // (2a') whole-variable assignment FROM a variable (b = a): a is a bystander of the assignment, and of later mutations of b
+    for vk in VKS.iter() {
+      for (mname, mtext) in vk.muts.iter() {
+        let stmts = vec![
+          Stmt { src: format!("a := {}", vk.lit), targets: vec!["a".into()], expect: "ok-or-err", what: "define".into() },
+          Stmt { src: format!("~b := {}", vk.alt), targets: vec!["b".into()], expect: "ok-or-err", what: "define".into() },
+          Stmt { src: "w := 42".into(), targets: vec!["w".into()], expect: "ok-or-err", what: "define".into() },
+          Stmt { src: "b = a".into(), targets: vec!["b".into()], expect: "ok-or-err", what: "alias-assign".into() },
+          Stmt { src: mtext.replace('$', "b"), targets: vec!["b".into()], expect: "ok-or-err", what: format!("mutate-{}", mname) },
+        ];
+        let cell = format!("alias;dir=fwd;from=assign;mut={};kind={}", mname, vk.name);
+        out.push(Case { id: cell.clone(), cell, input: json!({"stmts": stmts.iter().map(sj).collect::<Vec<_>>()}) });
+      }
+    }
     // (2b) definitions whose value cannot be converted to the (defined) annotated kind: the failing statement must define nothing
     let bad_defs: [(&str, &str); 12] = [
       ("u8-from-string", "c<u8> := \"abc\""), ("f64-from-string", "c<f64> := \"abc\""), ("mut-f64-from-atom", "~c<f64> := :A"), ("u8-from-atom", "c<u8> := :A"),
